@@ -1,7 +1,7 @@
 """C20 - configuration-tree queries return exactly the matching nodes (structural clauses)."""
 import ast
 
-from ..model import (AnalysisError, FUNC_TYPES, U, call_attr, call_name, dotted, enclosing, enclosing_function, guard_texts, short, walk_body, parent, const_str, kwarg)
+from ..model import (AnalysisError, FUNC_TYPES, U, call_attr, call_name, dotted, enclosing, enclosing_function, guard_texts, guards_ex, short, walk_body, parent, const_str, kwarg)
 from .. import feat
 from ..util import params, find_calls, stmt_of, has_exit, syn_dominates, assigns_to
 from ..cfg import handler_names, is_catch_all
@@ -454,6 +454,63 @@ def r5_persistent_expressions(cx, mods):
         cx.error("expected constructors of All/Any/Not, found %d" % n)
 
 
+def r6_one_compiler(cx):
+    """Bracket look-ups, upto() and child_query() must mean what select()/find() mean: every entry point turns the user's query into a predicate
+    through the one compiler (_desugar), unconditionally; and no name/value is ever matched by object identity (equal strings need not be identical:
+    trees restored from a pickle or built by hand carry un-interned names)."""
+    cx.rule("C20.R6", "every look-up compiles its query through _desugar; names and values are never matched by identity", floor=5)
+    qi = cx.repo.module(QI)
+    for q in ("Entry.__getitem__", "Result.__getitem__", "Entry.upto"):
+        fn = qi.func(q, "C20.R6")
+        qp = params(fn)[1]
+        # the callable applied to nodes
+        applied = sorted(set(x.func.id for x in ast.walk(fn) if isinstance(x, ast.Call) and isinstance(x.func, ast.Name) and len(x.args) == 1 and not x.keywords
+                             and (x.func.id == qp or assigns_to(fn, x.func.id)) and x.func.id not in ("_desugar",)))
+        if not applied:
+            cx.bad(fn, "%s filters nodes with the compiled query" % q, construct="(no predicate applied to a node)")
+            continue
+        for pv in applied:
+            ds = assigns_to(fn, pv)
+            ok = bool(ds) and all(isinstance(d, ast.Assign) and isinstance(d.value, ast.Call) and call_name(d.value) == "_desugar" and [U(a) for a in d.value.args] == [qp] and not d.value.keywords
+                                  and not [g for g in guards_ex(d) if g[2] == "nest"] for d in ds)
+            cx.require(ok, ds[0] if ds else fn, "%s: the predicate applied to the nodes is _desugar(%s) on every path (the same compiler select()/find() use)" % (q, qp),
+                       construct="; ".join(short(d, 100) for d in ds) if ds else "%s(...) applied without compiling" % pv)
+    cq = qi.func("child_query", "C20.R6")
+    ds = [x for x in find_calls(cq.body, name="_desugar")]
+    cx.require(len(ds) == 1 and not [g for g in guards_ex(ds[0]) if g[2] == "nest"], ds[0] if ds else cq, "child_query compiles its query through _desugar", construct=short(stmt_of(ds[0]), 100) if ds else "(none)")
+    n = 0
+    for m in (qi, cx.repo.module(QB)):
+        for c in [x for x in ast.walk(m.tree) if isinstance(x, ast.Compare)]:
+            ops = [c.left] + list(c.comparators)
+            for i, op in enumerate(c.ops):
+                if not isinstance(op, (ast.Is, ast.IsNot)):
+                    continue
+                a, b = ops[i], ops[i + 1]
+
+                def singleton(e):
+                    return (isinstance(e, ast.Constant) and (e.value is None or e.value is True or e.value is False or e.value is Ellipsis)) or (isinstance(e, ast.Name) and e.id in ("NotImplemented", "None"))
+
+                def type_side(e):
+                    return isinstance(e, ast.Call) and call_name(e) == "type" and len(e.args) == 1
+
+                def node_side(e):
+                    # identity of tree nodes (self / parent / root links) is object identity by design
+                    return isinstance(e, ast.Name) and e.id in ("self",)
+                def sentinel(e):
+                    # a module-level object created once (TRUE = TruePredicate()) or imported as such: identity is its meaning
+                    if not isinstance(e, ast.Name):
+                        return False
+                    v = m.top.get(e.id)
+                    if v is not None:
+                        return isinstance(v, ast.Call) and not any(isinstance(x, ast.Name) and isinstance(x.ctx, ast.Store) and x.id == e.id for f_ in ast.walk(m.tree) if isinstance(f_, FUNC_TYPES) for x in ast.walk(f_))
+                    return e.id in m.imports and e.id.isupper()
+                n += 1
+                ok = singleton(a) or singleton(b) or type_side(a) or type_side(b) or node_side(a) or node_side(b) or sentinel(a) or sentinel(b)
+                cx.require(ok, c, "identity comparison only against a singleton, between types, or between tree nodes themselves", construct=short(c, 90))
+    if n < 3:
+        cx.error("expected identity comparisons (is None ...) in the query modules, found %d" % n)
+
+
 def run(cx):
     repo = cx.repo
     cx.extra["explanation"] = ("C20: reconstruction of the code template of both to_pyfunc generators per class and agreement with the connective used by the class's test(); exhaustive dispatch over "
@@ -467,3 +524,4 @@ def run(cx):
     cx.guard(r3_order)
     cx.guard(r4_levels)
     cx.guard(r5_persistent_expressions, mods)
+    cx.guard(r6_one_compiler)
